@@ -600,12 +600,20 @@ type Style struct {
 	Tabs     bool // tab / mixed indentation, tabs after the colon
 	Trailing bool // trailing blanks
 	Compact  bool // no blank line between records
+	Comment  byte // comment character (0: '#'); the parser's CommentChar must be configured to match
 	// NoteIndentOnly: notes rendered (they are always indented)
 }
 
 // Hostile returns a style that uses every documented layout variant at random.
 func Hostile(r *rand.Rand) *Style {
 	return &Style{R: r, CRLF: r.Intn(3) == 0, NoEOL: r.Intn(4) == 0, Comments: true, Dashes: true, Quotes: true, Tabs: true, Trailing: true, Compact: r.Intn(3) == 0}
+}
+
+func (s *Style) cc() string {
+	if s == nil || s.Comment == 0 {
+		return "#"
+	}
+	return string([]byte{s.Comment})
 }
 
 func (s *Style) coin(n int) bool { return s != nil && s.R != nil && s.R.Intn(n) == 0 }
@@ -654,9 +662,9 @@ func (s *Style) filler(sb *strings.Builder) {
 		case 1:
 			sb.WriteString("   " + s.eol())
 		case 2:
-			sb.WriteString("# a comment: 12" + s.eol())
+			sb.WriteString(s.cc() + " a comment: 12" + s.eol())
 		case 3:
-			sb.WriteString("#" + s.eol())
+			sb.WriteString(s.cc() + s.eol())
 		}
 	}
 }
@@ -692,9 +700,9 @@ func (s *Style) note(sb *strings.Builder, n Note) {
 		sp = []string{"", "  ", "\t"}[s.R.Intn(3)]
 	}
 	if n.Key != "" {
-		sb.WriteString(ind + "#" + sp + n.Key + ":" + sp + n.Text + s.trail() + s.eol())
+		sb.WriteString(ind + s.cc() + sp + n.Key + ":" + sp + n.Text + s.trail() + s.eol())
 	} else {
-		sb.WriteString(ind + "#" + sp + n.Text + s.trail() + s.eol())
+		sb.WriteString(ind + s.cc() + sp + n.Text + s.trail() + s.eol())
 	}
 }
 
